@@ -24,19 +24,19 @@ func init() {
 		assumptions:   append([]string{"the model (a pure function of token array, elision set and raw cursor) is the meaning of the property's sentences; it shares no code with lexer/peek.go"}, common...),
 		requireFaults: []string{"source-lexer-error"}}
 	props["C15"] = &propCfg{id: "C15", needGen: true, quickSeconds: 30, thoroughSecs: 900, level: "exploration", selfSeeds: 400, confirmRuns: 3, minBudget: 300,
-		rule:          "each run draws one of 52 grammars (14 hand-written worlds, 18 ported from the repository's parser tests, 20 ported from _examples; 1 run in 24 a grammar the library considers buggy, on which all entry points must panic alike), a build variant (lookahead 1/2/MaxLookahead/-1/default, definition narrowed to hide LexString/LexBytes, extra Map mapper, generated lexer), a corpus document (valid and invalid specimens, flat units repeated, nested specimens, multi-byte text), in the faults sub-batch a content-fault plan so that errors are compared too, and reader delivery schedules (whole / bytewise / random chunks / split inside a rune / split inside a token / two halves, with (0,nil) stutters and data-with-EOF); it then checks: Parse(reader) = ParseBytes = ParseFromLexer(Upgrade(own lexer)) = ParseString (AST by DeepEqual, error by type, text, message, position); Parse(\"\", named reader) = ParseString(reader name); Parser.Lex = ConsumeAll(Lexer().Lex) and root Tokens is a prefix of it whose remainder is elided tokens and EOF; Trace over a SimWriter (ok / error after k bytes / short writes) changes nothing; AllowTrailing leaves the caller's lexer on the first junk token; a one-statement grammar applied repeatedly to one lexer yields what separate ParseString calls yield; standard-library readers handed in after the caller consumed a prefix (strings.Reader, bytes.Reader, bytes.Buffer, bufio.Reader, SectionReader, LimitReader) give the pivot result; the pivot result is unchanged after a different document was parsed; under a failing reader the result is an error or exactly the result for the delivered prefix, and a following call over the whole input gives the pivot result. 1 run in 5 instead compares Lex / LexString / LexBytes of a raw definition (all lexer definitions of the simulated world, runtime and generated). distinct = hash of (world, build variant, first reader's schedule shape, outcome class, document, fired content faults, delivered bytes); non-trivial = the first reader delivered in at least 2 reads and at least one read boundary fell strictly inside a token",
+		rule:          "each run draws one of 54 grammars (16 hand-written worlds, 18 ported from the repository's parser tests, 20 ported from _examples; 1 run in 24 a grammar the library considers buggy, on which all entry points must panic alike), a build variant (lookahead 1/2/MaxLookahead/-1/default, definition narrowed to hide LexString/LexBytes, extra Map mapper, generated lexer), a corpus document (valid and invalid specimens, flat units repeated, nested specimens, multi-byte text), in the faults sub-batch a content-fault plan so that errors are compared too, and reader delivery schedules (whole / bytewise / random chunks / split inside a rune / split inside a token / two halves, with (0,nil) stutters and data-with-EOF); it then checks: Parse(reader) = ParseBytes = ParseFromLexer(Upgrade(own lexer)) = ParseString (AST by DeepEqual, error by type, text, message, position); Parse(\"\", named reader) = ParseString(reader name); Parser.Lex = ConsumeAll(Lexer().Lex) and root Tokens is a prefix of it whose remainder is elided tokens and EOF; Trace over a SimWriter (ok / error after k bytes / short writes) changes nothing; AllowTrailing leaves the caller's lexer on the first junk token; a one-statement grammar applied repeatedly to one lexer yields what separate ParseString calls yield; standard-library readers handed in after the caller consumed a prefix (strings.Reader, bytes.Reader, bytes.Buffer, bufio.Reader, SectionReader, LimitReader) give the pivot result; the pivot result is unchanged after a different document was parsed; under a failing reader the result is an error or exactly the result for the delivered prefix, and a following call over the whole input gives the pivot result. 1 run in 5 instead compares Lex / LexString / LexBytes of a raw definition (all lexer definitions of the simulated world, runtime and generated). distinct = hash of (world, build variant, first reader's schedule shape, outcome class, document, fired content faults, delivered bytes); non-trivial = the first reader delivered in at least 2 reads and at least one read boundary fell strictly inside a token",
 		assumptions:   append([]string{"decided for the parsers and definitions of the simulated world", "ParseFromLexer on a stream whose lexing failed is represented by the lexing error itself (Upgrade fails before a PeekingLexer exists)"}, common...),
 		requireFaults: []string{"chunk", "stutter", "eof-with-data", "named", "trace-write-error", "trace-short-write", "read-error", "early-eof", "corrupt", "bom"}}
 	props["C06"] = &propCfg{id: "C06", needGen: true, quickSeconds: 30, thoroughSecs: 900, level: "exploration", selfSeeds: 400, confirmRuns: 3, minBudget: 300,
-		rule:          "each run draws one of 52 grammars (14 hand-written worlds: ini, expr, heredoc, basic, conformance, callbacks, durations (Parseable root), misc, tuple, lines, dashed, tokcap, notes, anon; 18 ported from the repository's parser tests; 20 ported from _examples), a build variant (lookahead default/1/2/MaxLookahead/-1, narrowed definition, extra mapper, generated lexer; map orders inside Build permuted), a corpus document (valid / invalid / flat unit repeated up to 40, thorough 400, times / nested specimen up to 12 or 60-400 levels / multi-byte / empty), in the faults sub-batch a content-fault plan (early EOF, corruption incl. NUL and invalid UTF-8, chunk drop / dup / reorder, re-encoding) and, in the callback worlds, a plan making the j-th callback invocation return ok / NextMatch / a foreign error / a located error; sometimes MaxIterations is set to 3 / 9 / 40; the delivered bytes D go through ParseString, ParseBytes and Parse over a SimReader (delivery schedule, optional read error). Clauses on D: returns within 10^5+10^4*(len(D)+1) logical steps without panic; (AST, nil) or error; lexing failure (Parser.Lex(D) fails) gives a nil AST and that very error, parse failure a non-nil AST; unless a foreign error was injected the error implements participle.Error, its Position / Message / Error do not panic, it carries the supplied filename, 0<=Offset<=len(D), Line/Column recomputed from D and Offset, Error() = [file:]line:col: Message(), and an UnexpectedTokenError names a token Parser.Lex(D) has at that offset. 1 run in 8 measures logical recursion depth instead: a flat unit repeated n and 2n times (n in 8/32/128/512, thorough 2048) must grow the depth by less than n/2 frames; nested specimens of depth d and 2d (d in 4/16/64/150) at most 4x linearly. distinct = hash of (world, variant, fired faults, outcome class, error type, error location class, delivered bytes, callback plan); non-trivial = a fault fired or the document is an invalid specimen or a callback plan was active, and the outcome is not decided at the first token",
+		rule:          "each run draws one of 54 grammars (16 hand-written worlds: ini, expr, heredoc, basic, conformance, callbacks, durations (Parseable root), misc, tuple, lines, dashed, tokcap, notes, anon, defs, shapes; 18 ported from the repository's parser tests; 20 ported from _examples), a build variant (lookahead default/1/2/MaxLookahead/-1, narrowed definition, extra mapper, generated lexer; map orders inside Build permuted), a corpus document (valid / invalid / flat unit repeated up to 40, thorough 400, times / nested specimen up to 12 or 60-400 levels / multi-byte / empty), in the faults sub-batch a content-fault plan (early EOF, corruption incl. NUL and invalid UTF-8, chunk drop / dup / reorder, re-encoding) and, in the callback worlds, a plan making the j-th callback invocation return ok / NextMatch / a foreign error / a located error; sometimes MaxIterations is set to 3 / 9 / 40; the delivered bytes D go through ParseString, ParseBytes and Parse over a SimReader (delivery schedule, optional read error). Clauses on D: returns within 10^5+10^4*(len(D)+1) logical steps without panic; (AST, nil) or error; lexing failure (Parser.Lex(D) fails) gives a nil AST and that very error, parse failure a non-nil AST; unless a foreign error was injected the error implements participle.Error, its Position / Message / Error do not panic, it carries the supplied filename, 0<=Offset<=len(D), Line/Column recomputed from D and Offset, Error() = [file:]line:col: Message(), and an UnexpectedTokenError names a token Parser.Lex(D) has at that offset. 1 run in 8 measures logical recursion depth instead: a flat unit repeated n and 2n times (n in 8/32/128/512, thorough 2048) must grow the depth by less than n/2 frames; nested specimens of depth d and 2d (d in 4/16/64/150) at most 4x linearly. distinct = hash of (world, variant, fired faults, outcome class, error type, error location class, delivered bytes, callback plan); non-trivial = a fault fired or the document is an invalid specimen or a callback plan was active, and the outcome is not decided at the first token",
 		assumptions:   append([]string{"decided for the grammars of the simulated world only, not for the universal quantifier over grammars", "logical step cap and logical depth (instrumented function entries) stand in for termination and stack use; Go cannot recover from real stack exhaustion"}, common...),
 		requireFaults: []string{"early-eof", "corrupt", "drop", "dup", "reorder", "bom", "crlf", "chunk", "stutter", "eof-with-data", "read-error", "callback-outcome-plan", "dup-flat-unit"}}
 	props["C09"] = &propCfg{id: "C09", race: true, needGen: true, quickSeconds: 45, thoroughSecs: 1500, level: "exploration", selfSeeds: 80, confirmRuns: 5, minBudget: 120,
-		rule:          "each run builds shared objects before any task exists (1-2 parsers from the 52 grammars (sometimes one the library considers buggy) in a drawn build variant, biased to the heredoc world whose definition caches compiled back-reference patterns; 0-2 raw lexer definitions, runtime or generated; optionally the package-level ebnf parser), with map iteration orders inside construction permuted from the tape; optionally runs a sequential prefix of 0-10 (thorough 0-30) operations on them, sometimes preceded by a long history of 150-310 lexing calls with pairwise distinct back-reference keys; then 2-6 (thorough 2-8) tasks (real goroutines released one at a time by the tape-driven scheduler, hand-offs hidden from the race detector) perform 1-6 (thorough 1-8) operations each out of ParseString / ParseBytes / Parse(SimReader) / ParseFromLexer / Parser.Lex / Parser.String / ParserForProduction / Definition.Lex, LexString, LexBytes + ConsumeAll / Symbols / Rules / json.Marshal(definition) / SymbolsByRune / ebnf.ParseString / ebnf.Parse / a parse with Trace / MakeSymbolTable / Parse or Lex over a reader that fails part-way (may fail, may never return something else) / post an error to another task / render errors other tasks produced, over corpus documents (heredoc delimiters from a per-run alphabet so tasks collide on cache keys and every run starts cold) and, in half the runs, fault-derived variants; scheduling strategy per run: sequential (switch at operation boundaries and reads only), random walk over statement-level yields, park-at-hot-site (park before a statement that may write shared state, resume right after a peer touched the same field or variable), PCT (depth 1-3); finally every distinct operation is repeated sequentially (read-back). Oracle O-iso: every result of all three phases equals the result of the same call on an instance constructed fresh for that one call after the run (generated definitions, which have no constructor: the first result seen in the process). Oracle O-race: the Go race detector over the whole run. distinct = hash of (context-switch sequence [(from, to, site)], operation multiset); non-trivial = at least one context switch at a statement-level yield (not an operation boundary or endpoint call)",
+		rule:          "each run builds shared objects before any task exists (1-2 parsers from the 54 grammars (sometimes one the library considers buggy) in a drawn build variant, biased to the heredoc world whose definition caches compiled back-reference patterns; 0-2 raw lexer definitions, runtime or generated; optionally the package-level ebnf parser), with map iteration orders inside construction permuted from the tape; optionally runs a sequential prefix of 0-10 (thorough 0-30) operations on them, sometimes preceded by a long history of 150-310 lexing calls with pairwise distinct back-reference keys; then 2-6 (thorough 2-8) tasks (real goroutines released one at a time by the tape-driven scheduler, hand-offs hidden from the race detector) perform 1-6 (thorough 1-8) operations each out of ParseString / ParseBytes / Parse(SimReader) / ParseFromLexer / Parser.Lex / Parser.String / ParserForProduction / Definition.Lex, LexString, LexBytes + ConsumeAll / Symbols / Rules / json.Marshal(definition) / SymbolsByRune / ebnf.ParseString / ebnf.Parse / a parse with Trace / MakeSymbolTable / Parse or Lex over a reader that fails part-way (may fail, may never return something else) / post an error to another task / render errors other tasks produced, over corpus documents (heredoc delimiters from a per-run alphabet so tasks collide on cache keys and every run starts cold) and, in half the runs, fault-derived variants; scheduling strategy per run: sequential (switch at operation boundaries and reads only), random walk over statement-level yields, park-at-hot-site (park before a statement that may write shared state, resume right after a peer touched the same field or variable), PCT (depth 1-3); finally every distinct operation is repeated sequentially (read-back). Oracle O-iso: every result of all three phases equals the result of the same call on an instance constructed fresh for that one call after the run (generated definitions, which have no constructor: the first result seen in the process). Oracle O-race: the Go race detector over the whole run. distinct = hash of (context-switch sequence [(from, to, site)], operation multiset); non-trivial = at least one context switch at a statement-level yield (not an operation boundary or endpoint call)",
 		assumptions:   append([]string{"the race detector reports only real unsynchronised conflicting accesses (no false positives); its misses (shadow-cell eviction, incidental happens-before through process-global standard-library pools) are mitigated by adjacency scheduling but not eliminated", "critical sections under sync.Mutex / sync.Once in the code under test run atomically in simulation", "blocking primitives other than those are not modelled (watchdog -> exit 2)"}, common...),
 		requireFaults: []string{"chunk", "read-error"}}
 	props["C07"] = &propCfg{id: "C07", needGen: true, quickSeconds: 30, thoroughSecs: 900, level: "exploration", selfSeeds: 400, confirmRuns: 3, minBudget: 300,
-		rule:          "each run picks one of 37 lexer definitions (runtime stateful: heredoc with back-reference, conformance, interpolated strings, Pop / Return reachable at root, invalid / convoluted back-references, optional group in an action rule, rules matching the empty string, nested Includes, a rule named EOF, 'units' covering the generator's regex operators; NewSimple ini; text/scanner; pointer-valued actions, a rule that both refers back and pushes, back-reference rules arriving through Include; the twelve lexers of the _examples grammars; the checked-in generated lexer) or one of ten to thirteen twins generated at check time by the working tree's generator, builds it with map iteration orders permuted from the tape, and then runs a history: lexers are opened at drawn moments (up to 4, thorough 7; also after another lexer was called past EOF) over corpus documents with a content-fault plan (early EOF / corrupt / drop / dup / reorder / re-encode: BOM, CR LF, Latin-1, NUL padding; none in the fault-free sub-batch) through Lex over a SimReader (delivery schedule, optional read error), LexString or LexBytes, their Next calls are alternated, and 0-5 further Next calls follow EOF or an error; 1 run in 40 on a caching definition is a long history instead (100-600, thorough up to 1600, short inputs with pairwise distinct captured texts on ONE definition). Clauses: no panic, each Next within 10^4+10^2*len(D) logical steps, non-empty non-EOF tokens, at most len(D) tokens, EOF repeats at the identical position. distinct = hash of (definition, entry points, terminal event and post-terminal call count per lexer, fired fault kinds, delivered bytes); non-trivial = at least one token was emitted and (a fault fired or the run ended in a lexer error or several lexers were alternated)",
+		rule:          "each run picks one of 41 lexer definitions (runtime stateful: heredoc with back-reference, conformance, interpolated strings, Pop / Return reachable at root, invalid / convoluted back-references, optional group in an action rule, rules matching the empty string, nested Includes, a rule named EOF, 'units' covering the generator's regex operators; NewSimple ini; text/scanner; pointer-valued actions, a rule that both refers back and pushes, back-reference rules arriving through Include; the twelve lexers of the _examples grammars; the checked-in generated lexer) or one of twelve to fifteen twins generated at check time by the working tree's generator, builds it with map iteration orders permuted from the tape, and then runs a history: lexers are opened at drawn moments (up to 4, thorough 7; also after another lexer was called past EOF) over corpus documents with a content-fault plan (early EOF / corrupt / drop / dup / reorder / re-encode: BOM, CR LF, Latin-1, NUL padding; none in the fault-free sub-batch) through Lex over a SimReader (delivery schedule, optional read error), LexString or LexBytes, their Next calls are alternated, and 0-5 further Next calls follow EOF or an error; 1 run in 40 on a caching definition is a long history instead (100-600, thorough up to 1600, short inputs with pairwise distinct captured texts on ONE definition). Clauses: no panic, each Next within 10^4+10^2*len(D) logical steps, non-empty non-EOF tokens, at most len(D) tokens, EOF repeats at the identical position. distinct = hash of (definition, entry points, terminal event and post-terminal call count per lexer, fired fault kinds, delivered bytes); non-trivial = at least one token was emitted and (a fault fired or the run ended in a lexer error or several lexers were alternated)",
 		assumptions:   append([]string{"decided for the definitions of the simulated world only, not for the universal quantifier over rule maps", "logical step cap per Next call (10^4 + 10^2*len(D) statement-level yields) stands in for termination; the observed maximum is reported next to the cap"}, common...),
 		requireFaults: []string{"early-eof", "corrupt", "drop", "dup", "reorder", "bom", "crlf", "chunk", "stutter", "eof-with-data", "read-error"}}
 }
